@@ -3,7 +3,7 @@
    C10/Global.v) and C08/ThermalUniquePipe.v (over the thermal system assembled from the generated kernels). *)
 From Coq Require Import Reals Lra Lia List Bool Arith.
 From PP Require Import Kern.RBool C10.Model C10.Proofs C10.Global C10.GlobalPipe C10.Example
-                       C08.ThermalUnique C08.ThermalUniquePipe.
+                       C08.Unique C08.FlowAcyclic C08.ThermalUnique C08.ThermalUniquePipe C08.Coupled.
 Import ListNotations.
 Open Scope R_scope.
 
@@ -74,3 +74,30 @@ Proof.
   rewrite Forall_forall in *. intros pb H. eapply passive_conducting. apply Hp. exact H.
 Qed.
 Print Assumptions thermal_hypotheses_satisfiable.
+
+(* ---- 5. hydraulics and heat transfer composed: on a solution of a passive level network (C08/Unique.v model; laws
+        strictly increasing, phi(0) = 0, no lift / height term) whose branches and flows the thermal branches match
+        position by position, the flow directions are ranked by pressure, so the acyclicity hypothesis of theorem 3 is
+        discharged: two thermal fixed points for that hydraulic solution coincide *)
+Theorem hydraulic_solution_ranks_the_flow_directions : forall tw n slack pfix load bs p ms pbs,
+  solves n slack pfix load bs p ms -> in_range n bs -> Forall passive_law bs ->
+  Forall2 matches pbs (combine bs ms) ->
+  Forall (fun pb => p_flow tw pb = true) pbs ->
+  exists rank : nat -> nat, forall pb, In pb pbs -> (rank (p_fnc pb) < rank (p_tnc pb))%nat.
+Proof. exact flow_directions_are_ranked. Qed.
+Print Assumptions hydraulic_solution_ranks_the_flow_directions.
+
+Theorem thermal_start_values_do_not_matter_on_passive_networks :
+  forall tw cp c amb Tn Tn' isT n pbs pbs' slack pfix load bs p ms,
+  solves n slack pfix load bs p ms -> in_range n bs -> Forall passive_law bs ->
+  Forall2 matches pbs (combine bs ms) ->
+  0 < c -> (forall t, cp t = c) ->
+  Forall2 same_hyd pbs pbs' ->
+  fixed_point tw cp amb Tn isT n pbs ->
+  fixed_point tw cp amb Tn' isT n pbs' ->
+  Forall (conducting tw n) pbs ->
+  (forall i, (i < n)%nat -> node_infeed tw cp amb Tn pbs i = true -> Tn i = Tn' i) ->
+  (forall i, (i < n)%nat -> node_flow tw cp amb Tn pbs i = true) ->
+  (forall i, (i < n)%nat -> Tn i = Tn' i) /  Forall2 (fun pb pb' => p_tout pb = p_tout pb') pbs pbs'.
+Proof. exact coupled_start_values_do_not_matter. Qed.
+Print Assumptions thermal_start_values_do_not_matter_on_passive_networks.
